@@ -95,11 +95,12 @@ PROPS = {
         models=[dict(module="MC_KDF", workers=2, about="L1 model of the kdf loop (bound = ceil(klen/V), bound-1 blocks, last block whole or klen%V bytes) = the first klen bytes of H(Z||1)||H(Z||2)||... for every klen 1..40 (abstract 4-byte hash)"),
                 dict(module="MC_KDF", cfg="MC_KDF_plus1", expect="violation", workers=2, about="negative: bound = klen/V + 1 must be refuted"),
                 dict(module="MC_KDF", cfg="MC_KDF_droplast", expect="violation", workers=2, about="negative: last block skipped when klen%V = 0 must be refuted"),
+                dict(module="MC_Cubic", workers=4, about="the cubic solver the plan uses to SOLVE for curve points with a prescribed y^2 (Cubic.tla) is right for every prime P = 3 mod 4 below 100 and 251, every A, every c: a reported root is a root, 'none' means none, 'split' means three roots"),
                 dict(module="AnchorSM2", anchor=True, workers=1, about="SM2.tla reproduces the GM/T 0003.5 Annex values"),
                 dict(module="MC_SM2Enc", cfg="MC_SM2Enc_q_none", tier="quick", about="toy curve F_11, symbols 0..11: every key, nonce, message, order, encoding round-trips; code-shaped decryptor = declarative decryptor on EVERY symbol string of ciphertext length"),
                 dict(module="MC_SM2Enc", cfg="MC_SM2Enc_none", tier="thorough", timeout=900, about="same with symbols 0..15 (5.5 M states)")],
         stages=[dict(suite="sm2enc", nda="validate", trace="TraceSM2", plan=dict(module="PlanSM2Enc", cfg_quick="PlanSM2Enc_q", cfg_thorough="PlanSM2Enc_t"),
-                     required_classes={"both": ["sm2.encrypt/c1c3c2.uncomp.klen%32=0", "sm2.encrypt/c1c2c3.comp.short", "sm2.decrypt/own-ciphertext", "sm2.decrypt/spec-made", "sm2.decrypt/weak-zero", "sm2.decrypt/all-zero-t", "sm2.kdf/klen%32=0", "codec.asn1_dec/asn1.dec.interop", "codec.asn1_dec/asn1.dec.interop-short-coord"]})],
+                     required_classes={"both": ["sm2.decrypt/valid-window-y2", "sm2.decrypt/comp-valid-window-y2", "sm2.decrypt/valid-window-x2", "sm2.decrypt/valid-small-x", "sm2.encrypt/c1c3c2.uncomp.klen%32=0", "sm2.encrypt/c1c2c3.comp.short", "sm2.decrypt/own-ciphertext", "sm2.decrypt/spec-made", "sm2.decrypt/weak-zero", "sm2.decrypt/all-zero-t", "sm2.kdf/klen%32=0", "codec.asn1_dec/asn1.dec.interop", "codec.asn1_dec/asn1.dec.interop-short-coord"]})],
         assumptions=["SM2.tla transcribes GB/T 32918.4 (anchored by the GM/T 0003.5 Annex ciphertext as ASSUME)"],
     ),
     "C06": dict(
@@ -116,7 +117,7 @@ PROPS = {
                 dict(module="MC_SM2Enc", cfg="MC_SM2Enc_q_hash", expect="violation", about="negative: decryption without the C3 comparison must be refuted")],
         stages=[dict(suite="sm2dec", nda="validate", trace="TraceSM2", plan=dict(module="PlanSM2Enc", cfg_quick="PlanSM2Enc_q", cfg_thorough="PlanSM2Enc_t"),
                      required_classes={"both": ["sm2.decrypt/untouched", "sm2.decrypt/flip-c1", "sm2.decrypt/flip-body", "sm2.decrypt/truncated",
-                                                "sm2.decrypt/offcurve", "sm2.decrypt/x+p", "sm2.decrypt/nonresidue", "sm2.decrypt/valid-small-x", "codec.asn1_dec/asn1.dec.offcurve", "codec.asn1_dec/asn1.dec.valid-small-x", "sm2.decrypt/fold-c3", "sm2.decrypt/c1-zero-forged", "codec.asn1_dec/asn1.dec.c1-zero-forged"]})],
+                                                "sm2.decrypt/offcurve", "sm2.decrypt/valid-window-y2", "sm2.decrypt/comp-valid-window-y2", "sm2.decrypt/valid-window-x2+a", "codec.asn1_dec/asn1.dec.valid-window-y2", "sm2.decrypt/x+p", "sm2.decrypt/nonresidue", "sm2.decrypt/valid-small-x", "codec.asn1_dec/asn1.dec.offcurve", "codec.asn1_dec/asn1.dec.valid-small-x", "sm2.decrypt/fold-c3", "sm2.decrypt/c1-zero-forged", "codec.asn1_dec/asn1.dec.c1-zero-forged"]})],
         assumptions=["SM2.tla transcribes GB/T 32918.4 and the SEC1 point decoding rules"],
     ),
     "C15": dict(
